@@ -318,7 +318,7 @@ func (w *World) ConsumersStep() {
 			for _, f := range l.ToCons {
 				if !f.Done && f.Packet.TimeoutTimestamp != 0 && uint64(w.Now.UnixNano()) >= f.Packet.TimeoutTimestamp {
 					f.Done, f.TimedOut = true, true
-					l.Timeouts = append(l.Timeouts, &InFlight{Packet: f.Packet, Height: f.Height, SentStep: f.SentStep})
+					l.Timeouts = append(l.Timeouts, &InFlight{Packet: f.Packet, Height: f.Height, SentStep: f.SentStep, FromProv: f.FromProv})
 				}
 			}
 		case 0:
